@@ -92,7 +92,9 @@ def run(ck, prog, ctx):
                                                                  ": the term's own id is missing, so a %s root itself is not recognised (is_modifier() is true for it)" % s["root"]),
               where=b.where(s["term"].line))
     # (the two HpoTerm predicates may share one private helper: fewer sites, same coverage - `site-present` below checks each user)
-    ck.floor("SIBLING", "modifier/category membership sites", len(sites), 3, soft=bool(sites))
+    from props.shared import reaches_membership_test as _rmt
+    _im = prog.body("term::hpoterm::HpoTerm::<'a>::is_modifier")
+    ck.floor("SIBLING", "modifier/category membership sites", len(sites), 3, soft=bool(sites) or (_im is not None and _rmt(prog, _im) is not None))
     sub0 = prog.body(SUB)
     helpers_of_sub = set()
     if sub0 is not None:
@@ -115,6 +117,13 @@ def run(ck, prog, ctx):
         if not present and need == "Ontology::sub_ontology":
             ck.undecided("SIBLING", "site-present/" + need, "no modifier membership test located in sub_ontology or its private helpers (different idiom?)")
             continue
+        if not present:
+            from props.shared import reaches_membership_test
+            nb2_ = prog.body("term::hpoterm::" + need)
+            via_ = reaches_membership_test(prog, nb2_) if nb2_ is not None else None
+            if via_ is not None:
+                ck.undecided("SIBLING", "site-present/" + need, "%s reaches a group membership test only in %s (an idiom the membership rule does not read)" % (need, via_.short))
+                continue
         ck.ob("SIBLING", "site-present/" + need, present, "membership predicate located in %s" % need if present else "coverage-floor: no membership test found in %s" % need)
 
     # ------------------------------------------------------------------ KIND on the re-annotation loops
@@ -184,15 +193,35 @@ def run(ck, prog, ctx):
             else:
                 ck.ob("KIND", "links/sub_ontology/%s" % m, not filt, "%s links the record to its direct terms ∩ %s" % (m, "all retained ids" if not filt else "the modifier-FILTERED ids (modifier links are lost)"), where=fb.where(t.line))
     for m, K in sorted(ANNOT.items()):
+        if K not in seen_kinds:
+            from engines import private_scope
+            far = [xb for xb in private_scope(prog, sub) if any((t_.callee.res or "").endswith("::" + m) for _, t_ in xb.calls())]
+            if far:
+                ck.undecided("KIND", "K3/sub_ontology/" + m, "sub_ontology re-annotates %s records in private code outside its own body (%s): the kind / guard / link rules of this section read the body only" % (K, far[0].short), where=sub.where())
+                continue
         ck.ob("KIND", "K3/sub_ontology/" + m, K in seen_kinds, "sub_ontology %s %s records" % ("re-annotates" if K in seen_kinds else "never re-annotates", K), where=sub.where())
 
     check_complete_iteration(ck, "KIND", prog, [SUB], "the leaves, retained terms and annotation records")
 
-    check_required_steps(ck, "KIND", prog, sub, [("re-annotate " + K, (lambda mm: (lambda t: (t.callee.res or "").endswith("::" + mm)))(m)) for m, K in sorted(ANNOT.items())] + [
+    from engines import private_scope as _ps
+    _scope = _ps(prog, sub)
+    _own = {x.id for x in prog.family(sub)}
+
+    def _far_only(pred_):
+        """the step exists, but only in private code beyond the body and its direct helpers"""
+        return not any(pred_(t_) for x in prog.family(sub) for _, t_ in x.calls()) and any(pred_(t_) for x in _scope if x.id not in _own for _, t_ in x.calls())
+    _steps = [("re-annotate " + K, (lambda mm: (lambda t: (t.callee.res or "").endswith("::" + mm)))(m)) for m, K in sorted(ANNOT.items())] + [
         ("copy every retained term", lambda t: (t.callee.res or "").endswith("LooseCollection>::add_term")),
         ("link retained parents", lambda t: (t.callee.res or "").endswith("::add_parent_unchecked") or (t.callee.res or "").endswith("AllTerms>::add_parent")),
         ("connect_all_terms", lambda t: (t.callee.res or "").endswith("::connect_all_terms")),
-        ("calculate_information_content", lambda t: (t.callee.res or "").endswith("::calculate_information_content"))])
+        ("calculate_information_content", lambda t: (t.callee.res or "").endswith("::calculate_information_content"))]
+    _near = []
+    for lab_, pred_ in _steps:
+        if _far_only(pred_):
+            ck.undecided("KIND", "required-step/%s/%s" % (sub.short, lab_), "sub_ontology performs `%s` only in private code beyond its body and direct helpers: whether every success path passes it is not decided" % lab_, where=sub.where())
+        else:
+            _near.append((lab_, pred_))
+    check_required_steps(ck, "KIND", prog, sub, _near)
 
     # ------------------------------------------------------------------ COVER: copied term
     getters = set()
@@ -206,6 +235,8 @@ def run(ck, prog, ctx):
             tg = prog.bodies.get(t.callee.res) if t.callee.res else None
             if tg is not None and tg.kind in ("Fn", "AssocFn") and not tg.reachable and not tg.impl_trait and tg.file == sub.file and tg not in scan:
                 scan += [x for x in prog.family(tg) if x not in scan]
+    # ... and the private code of other modules that sub_ontology reaches (`Selection::connected_copy` in a private sub-module)
+    scan += [x for x in _scope if x not in scan]
     acc_field = {}
     for ab in prog.production():
         if ab.kind == "AssocFn" and (ab.impl_self or {}).get("adt") == "term::internal::HpoTermInternal" and ab.nargs == 1 and not ab.natural_loops() and len(ab.reach) <= 4:
